@@ -138,7 +138,8 @@ namespace micm
         // solution_blk in camchem
         // Yn1 = Yn1 + residual;
         // always make sure the solution is positive regardless of which iteration we are on
-        Yn1.ForEach([&](double& yn1, const double& f) { yn1 = std::max(0.0, yn1 + f); }, forcing);
+        // (a NaN iterate stays NaN so that it is detected below instead of being replaced by zero)
+        Yn1.ForEach([&](double& yn1, const double& f) { yn1 = std::max(yn1 + f, 0.0); }, forcing);
 
         // if this is the first iteration, we don't need to check for convergence
         if (iterations++ == 0)
@@ -208,6 +209,11 @@ namespace micm
     const std::size_t n_vars = abs_tol.size();
     for (std::size_t i = 0; i < n_elem; ++i)
     {
+      // a non-finite residual or solution is never converged
+      if (!std::isfinite(*residual_iter) || !std::isfinite(*Yn1_iter))
+      {
+        return false;
+      }
       if (std::abs(*residual_iter) > small && std::abs(*residual_iter) > abs_tol[i % n_vars] &&
           std::abs(*residual_iter) > rel_tol * std::abs(*Yn1_iter))
       {
@@ -240,6 +246,11 @@ namespace micm
     // evaluate the rows that fit exactly into the vectorizable dimension (L)
     for (std::size_t i = 0; i < whole_blocks; ++i)
     {
+      // a non-finite residual or solution is never converged
+      if (!std::isfinite(*residual_iter) || !std::isfinite(*Yn1_iter))
+      {
+        return false;
+      }
       if (std::abs(*residual_iter) > small && std::abs(*residual_iter) > abs_tol[(i / L) % n_vars] &&
           std::abs(*residual_iter) > rel_tol * std::abs(*Yn1_iter))
       {
@@ -257,6 +268,10 @@ namespace micm
         const std::size_t offset = y * L;
         for (std::size_t i = offset; i < offset + remaining_rows; ++i)
         {
+          if (!std::isfinite(residual_iter[i]) || !std::isfinite(Yn1_iter[i]))
+          {
+            return false;
+          }
           if (std::abs(residual_iter[i]) > small && std::abs(residual_iter[i]) > abs_tol[y] &&
               std::abs(residual_iter[i]) > rel_tol * std::abs(Yn1_iter[i]))
           {
